@@ -161,6 +161,7 @@ def inject_file(ctx, tag, ops):
     # split the trace per case
     tstarts = [k for k, l in enumerate(tr) if l.startswith("case")]
     ok = True
+    per_base = {}
     if not (len(tstarts) == len(cases) == len(ve)):
         ctx.tie_broken("stream-run:inject", "cases=%d trace cases=%d oracle verdicts=%d" % (len(cases), len(tstarts), len(ve)))
         return 0, False
@@ -173,6 +174,20 @@ def inject_file(ctx, tag, ops):
         go_v = ve[i]
         status = next((l.split()[1] for l in seg if l.startswith("status ")), "?")
         ctx.count("inject.status.%s" % status)
+        base = (c[1].split() + ["?", "?"])[1].split("+")[0] if len(c) > 1 else "?"
+        per_base.setdefault(base, [0, 0])
+        per_base[base][0] += 1
+        per_base[base][1] += status == "injected"
+        for l in seg:
+            if l.startswith("feat "):
+                for ft in (l.split()[1].split(",") if l.split()[1] != "-" else []):
+                    ctx.count("inject.feature.%s" % ft)
+        if status == "unloadable":
+            # a configuration / input of the check that does not load is a broken tie, never a pass (review 3, H1)
+            ctx.tie_broken("inject-unloadable",
+                           "a case of the inject stream did not load (rendering %s): %s" % (base, next((l for l in seg if l.startswith("status ")), "")[:400]),
+                           {"stream": "inject", "ops": c})
+            ok = False
         if len(c) > 1:
             ctx.count("inject.setting.%s" % (c[1].split() + ["?", "?"])[1])
             ctx.count("inject.source.%s" % c[1].split()[0])
@@ -186,7 +201,7 @@ def inject_file(ctx, tag, ops):
         # the oracle's exact classification of the known findings F10e / F10g (the Lean monitor says "idempotent <component>")
         known_class = gt[0] == "FAIL" and gt[1] in ("idempotent-podports-user-proxy-ports", "idempotent-sidecar-env-order-cluster-vars")
         # clauses only the Go oracle can see (labels / env values are digests in the reduced pods)
-        go_only = gt[0] == "FAIL" and gt[1] in ("network-label", "network-env") and lt[:2] == ["OK", "injected"]
+        go_only = gt[0] == "FAIL" and gt[1] in ("network-label", "network-env", "path-env", "injected-annotations")
         if lt[:2] != gt[:2] and not (known_class and lt[:2] == ["FAIL", "idempotent"]) and not go_only:
             ctx.tie_broken("monitor-vs-oracle:inject",
                            "the Lean monitor and the Go oracle judge the same run differently: lean=%r oracle=%r" % (lean_v, go_v),
@@ -204,6 +219,18 @@ def inject_file(ctx, tag, ops):
             if len(ctx.violations) > nviol or not any(h["fingerprint"] == "inject:%s" % clause for h in ctx.known_hits):
                 ok = False  # (a fingerprint listed as known in known-findings.json is reported as KNOWN-FINDING only)
             ctx.count("inject.rejected.%s" % clause)
+    # every rendering that was asked for must really have injected pods (a rendering that silently injects nothing is no evidence)
+    if tag == "generated":
+        for base, (n_cases, n_inj) in sorted(per_base.items()):
+            ctx.count("inject.injected.%s" % base, n_inj)
+            if n_cases >= 20 and n_inj < 5:
+                ctx.tie_broken("inject-coverage",
+                               "rendering %s: only %d of %d cases were injected" % (base, n_inj, n_cases), {"stream": "inject"})
+                ok = False
+        total_inj = sum(v[1] for v in per_base.values())
+        if total_inj < max(200, len(cases) // 4):
+            ctx.tie_broken("inject-coverage", "only %d of %d generated cases were injected" % (total_inj, len(cases)), {"stream": "inject"})
+            ok = False
     return len(cases), ok
 
 
@@ -241,7 +268,7 @@ def run(ctx):
                 "(10 policy strings, 0-2 never / always selectors with matchLabels and In/NotIn/Exists/DoesNotExist/invalid expressions, "
                 "invalid keys/values, empty selectors), each evaluated again after randomising fields outside the listed inputs (all DNS policies, "
                 "hostPID/IPC, name, service account, templates annotation, own istio-proxy container); inject: every fixture document of pkg/kube/inject/testdata/inject through the webhook "
-                "(17 renderings; webhook Config with policy disabled / never+always selectors; inject URL path; API-server defaulting between passes) "
+                "(22 renderings; webhook Config with policy disabled / never+always selectors; inject URL path; API-server defaulting between passes) "
                 "and through IntoObject (fixtures and generated pods, bare or wrapped into a Deployment), plus generated pods in ignored and ordinary namespaces (1-3 containers, probes, ports, init containers, native "
                 "sidecars, volumes, user istio-proxy / istio-init, overrides annotation, 20 steering annotations), each injected once and "
                 "twice; distinct = hash of (ops, implementation outputs / reduced pods); non-trivial = pod was actually injected")
@@ -291,7 +318,7 @@ def run(ctx):
             else:
                 ctx.tie_broken("oracle:%s" % stream, "oracle did not run: rc=%s %s" % (rc, log[-2000:]))
     # T-mon: the real webhook path once / twice, judged by the Lean monitors and by the Go oracle
-    inject_stream(ctx, ctx.n(2000, 30000))
+    inject_stream(ctx, ctx.n(1500, 30000))
     if not proved and not ctx.violations:
         pass  # ctx.finish reports the broken proof (no failing input found by table oracle / stream oracles)
 
@@ -339,13 +366,16 @@ MANIFEST = {
                    "illegal policy disables; full_statement_partial elsewhere); the concrete model incl. Kubernetes label-selector matching "
                    "provably factors through the table (concrete_eq_table) and is tied by a differential stream. The two real call sites are "
                    "judged too: every admission through Webhook.inject (pod namespace / request-namespace fallback, webhook Config with policy "
-                   "disabled and never/always selectors, ignored namespaces) and through IntoObject must be skipped iff the documented "
-                   "decision says so (judge_decision_checked), refusals must be predicted, bad patches fail. Idempotence / preservation: "
-                   "both paths are run once and twice on every pod fixture under 17 renderings (incl. the setFlags/mesh entries of the package's "
+                   "disabled / illegal and never/always selectors - also travelling through the chart and UnmarshalConfig -, ignored namespaces, pods "
+                   "that already carry a status annotation, the HTTP handler of NewWebhook) and through IntoObject / IntoResourceFile for every "
+                   "workload kind must be skipped iff the documented "
+                   "decision says so (judge_decision_checked; missing decision inputs fail), refusals must be predicted, bad patches and unloadable "
+                   "configurations fail, the status annotation must be a truthful record (statusTruthfulB_iff). Idempotence / preservation: "
+                   "both paths are run once and twice on every pod fixture under 22 renderings (incl. the setFlags/mesh entries of the package's "
                    "own TestInjection: OTel semconv, mesh TPROXY, mesh status port, multus, mtls certs, mesh proxyMetadata) x webhook-config / inject-path / "
                    "API-defaulting variants and on generated pods; Lean monitors proved sound and complete (preservesB_iff, idempotentB_iff, "
-                   "judge_*_sound/complete) judge the reduced pods, a Go oracle judges the full objects. Nine defects found this way were "
-                   "fixed in /repo (F10a-d, F10f, F10h OTel attributes, F10i kube-inject ignored namespaces) or are registered as known "
+                   "judge_*_sound/complete) judge the reduced pods, a Go oracle judges the full objects. Ten defects found this way were "
+                   "fixed in /repo (F10a-d, F10f, F10h OTel attributes, F10i kube-inject ignored namespaces, F10j CronJob decision) or are registered as known "
                    "(F10e, F10g)."),
     "level_note": ("Trusted: Lean kernel + {propext, Classical.choice, Quot.sound}; the harness' realisation of abstract rows as real objects "
                    "and its reduction of pods; pkg/kube/inject/zz_verif_c19.go; Kubernetes selector semantics modelled from apimachinery "
